@@ -32,12 +32,12 @@ HEURISTICS = ['MI', 'MI-numba-3mr', 'MI-numba-randomized', 'max-value-coverage',
 
 def plan(tier, seed):
     shards = []
-    k = 8 if tier == 'quick' else 14
+    k = 8 if tier == 'quick' else 32
     for i in range(k):
         shards.append({'name': 'frames-%d' % i, 'fn': 'shard_frames', 'args': {'part': i, 'parts': k}})
     shards.append({'name': 'documented-names', 'fn': 'shard_documented', 'args': {}})
     shards.append({'name': 'default-size-batch', 'fn': 'shard_big_batch', 'args': {}})
-    for i in range(1 if tier == 'quick' else 4):
+    for i in range(1 if tier == 'quick' else 8):
         shards.append({'name': 'real-pool-%d' % i, 'fn': 'shard_real_pool', 'args': {'part': i}})
     return shards
 
@@ -143,7 +143,7 @@ def shard_frames(sh, part, parts):
     captured = []
     install_hook(cr, captured, sh)
     rng, nprng = sh.rng('frames', part), sh.nprng('frames', part)
-    reps = 5 if sh.tier == 'quick' else 60
+    reps = 5 if sh.tier == 'quick' else 150
     todo = [(h, mode, via, r) for h in HEURISTICS for mode in ('True', 'False') for via in ('mixed_rank_graph', 'compute_batch_ranking') for r in range(reps)]
     random.Random(sh.seed).shuffle(todo)
     for t, (heuristic, mode, via, r) in enumerate(gen.chunks(todo, parts)[part]):
